@@ -457,7 +457,7 @@ func (fc *FuncCtx) appendOp(fr *Frame, st *State, call *ssa.CallCommon, pos toke
 	} else {
 		n = SLen(tv.T)
 		trow := Select(M, SBase(tv.T))
-		elemAt = func(k *Term) *Term { return Select(trow, Add(SOff(tv.T), k)) }
+		elemAt = func(k *Term) *Term { return At(trow, SOff(tv.T), k) }
 	}
 	ln := SLen(s)
 	newLen := Add(ln, n)
@@ -471,7 +471,7 @@ func (fc *FuncCtx) appendOp(fr *Frame, st *State, call *ssa.CallCommon, pos toke
 		inPlaceRow = Store(srow, Add(SOff(s), ln), x)
 		fr0 := Fresh("append.row", rowS)
 		k := BVar("k", SInt)
-		st.assume(Forall([]*Term{k}, Implies(And(Le(IntLit(0), k), Lt(k, ln)), Eq(Select(fr0, k), Select(srow, Add(SOff(s), k))))))
+		st.assume(Forall([]*Term{k}, Implies(And(Le(IntLit(0), k), Lt(k, ln)), Eq(At(fr0, IntLit(0), k), At(srow, SOff(s), k)))))
 		freshRow = Store(fr0, ln, x)
 	} else if isOne && one == 0 {
 		inPlaceRow = srow
@@ -485,8 +485,8 @@ func (fc *FuncCtx) appendOp(fr *Frame, st *State, call *ssa.CallCommon, pos toke
 		inPlaceRow = ip
 		fr0 := Fresh("append.row", rowS)
 		k2 := BVar("k", SInt)
-		st.assume(Forall([]*Term{k2}, Implies(And(Le(IntLit(0), k2), Lt(k2, newLen)), Eq(Select(fr0, k2),
-			Ite(Lt(k2, ln), Select(srow, Add(SOff(s), k2)), elemAt(Sub(k2, ln)))))))
+		st.assume(Forall([]*Term{k2}, Implies(And(Le(IntLit(0), k2), Lt(k2, newLen)), Eq(At(fr0, IntLit(0), k2),
+			Ite(Lt(k2, ln), At(srow, SOff(s), k2), elemAt(Sub(k2, ln)))))))
 		freshRow = fr0
 	}
 	newCap := Fresh("append.cap", SInt)
@@ -516,7 +516,7 @@ func (fc *FuncCtx) copyOp(fr *Frame, st *State, call *ssa.CallCommon, pos token.
 	} else {
 		n = SLen(sv.T)
 		srow := Select(M, SBase(sv.T))
-		elemAt = func(k *Term) *Term { return Select(srow, Add(SOff(sv.T), k)) }
+		elemAt = func(k *Term) *Term { return At(srow, SOff(sv.T), k) }
 	}
 	cnt := Ite(Le(SLen(d), n), SLen(d), n)
 	drow := Select(M, SBase(d))
